@@ -122,10 +122,29 @@ func (d *doc) expect(name string) expectation {
 	talts, trule, tdec := d.tableExpect(name)
 	tnt := nontrivial(talts)
 	perHost := ""
+	perHostEmpty := false
 	for _, ch := range d.CredHelpers {
 		if ch[0] == name {
 			perHost = ch[1]
+			perHostEmpty = ch[1] == ""
 		}
+	}
+	if perHostEmpty && d.CredsStore != "" {
+		// A per-host entry that names no helper: the property speaks of helpers that exist by name and
+		// leaves this case open. Either reading is accepted (the entry opts the host out of the default
+		// store, or it counts as absent); determinism is still required.
+		saved := d.CredHelpers
+		var without [][2]string
+		for _, ch := range saved {
+			if ch[0] != name {
+				without = append(without, ch)
+			}
+		}
+		d.CredHelpers = without
+		asAbsent := d.expect(name)
+		d.CredHelpers = saved
+		x := expectation{Alts: append(append([]outcome{}, talts...), asAbsent.Alts...), Rule: "per-host-empty-name/unspecified", Table: trule}
+		return x
 	}
 	if perHost != "" {
 		o, kind := helperOutcome(perHost, name)
